@@ -254,7 +254,7 @@ def run(ctx):
         rtrace = repo_trace(ctx)
         return rtrace, (ctx.validate(tmod, tcfg, rtrace, label="repo") if rtrace else 0)
 
-    with cl.Jobs(ctx) as jobs:
+    with cl.Jobs(ctx, max_workers=10) as jobs:
         # ---- design level: the machine against the reference operators, then the laws of the statement
         f_mc = jobs.submit(ctx.mc, "CtxAlgebra", "CtxAlgebra_%s.cfg" % tag, coverage=True, must_cover=ACTIONS)
         f_laws = jobs.submit(ctx.mc, "CtxAlgebra", "CtxAlgebra_%s_laws.cfg" % tag)
@@ -270,21 +270,25 @@ def run(ctx):
         nval = 4 if ctx.thorough else 2
         small_size = 5 if ctx.thorough else 4
         ncalls = 0
-        exports = [f_exp]
+        exports = [(f_exp, nval)]
         if ctx.thorough:
-            f_mc.result()
-            f_laws.result()
-            for extra in ("CtxAlgebra_thorough_deep.cfg", "CtxAlgebra_thorough_wide.cfg"):
-                ctx.mc("CtxAlgebra", extra)
-            exports += [jobs.submit(ctx.export, "CtxAlgebra", c, min_records=1000)
+            exports += [(jobs.submit(ctx.export, "CtxAlgebra", c, min_records=1000), 2)
                         for c in ("CtxAlgebra_thorough_wide_export.cfg", "CtxAlgebra_thorough_deep_export.cfg")]
-        for fut in exports:
+
+            def more():
+                f_mc.result()
+                f_laws.result()
+                # all depth-2 pairs; depth 3 (nesting below one key); three keys; triples of depth-2 dictionaries
+                for extra in ("full", "deep", "wide", "triples"):
+                    ctx.mc("CtxAlgebra", "CtxAlgebra_thorough_%s.cfg" % extra)
+            f_more = jobs.submit(more)
+        for fut, nv in exports:
             recs = fut.result()
             ctx.sample({"spec_behaviour": recs[(2 * len(recs)) // 3]})
             for rec in recs:
                 syms = cl.symbols_of(rec["args"])
                 small = cl.size(rec["args"]) <= small_size
-                for val in cl.valuations(syms, rnd, nval, systematic=small):
+                for val in cl.valuations(syms, rnd, nv, systematic=small):
                     replay(ctx, fails, rec, val, rnd, fns)
                     ncalls += 1
                 ctx.case([rec["op"], rec["lv"], rec["key"], rec["args"]],
@@ -297,6 +301,8 @@ def run(ctx):
         cl.account_trace(ctx, tmod, trace, f_trace.result(),
                          lambda r: "%s:level=%s" % (FN[r["op"]], r["lv"]))
         f_demo.result()
+        if ctx.thorough:
+            f_more.result()
         rtrace, racc = f_repo.result()
         ctx.extra["repo_suite_calls_recorded"] = len(rtrace)
         cl.account_trace(ctx, tmod, rtrace, racc,
